@@ -246,7 +246,7 @@ fn starts(n: usize) -> Vec<St> {
 
 pub fn run(ctx: &Ctx, rep: &Report) {
     let alpha = alphabet();
-    let max_n = if ctx.thorough() { 6 } else { 4 };
+    let max_n = if ctx.thorough() { 16 } else { 9 };
     rep.set_rule("explicit-state BFS; a state is (rows, selected, quit, search mode, sort key, sort order, query length class, width); non-trivial = distinct canonical states reached");
     rep.assume("search_query is abstracted to its length class {0,1,>=2}: update() only pushes/pops/clears it and never branches on its content (cross-checked by an un-abstracted bounded DFS)");
     rep.assume("the table size is fixed during a key sequence (the property's quantifier); starts with selected >= rows are not used");
@@ -325,7 +325,7 @@ pub fn run(ctx: &Ctx, rep: &Report) {
     rep.eval(total_trans);
     rep.nontriv(total_states);
     rep.merge_outcomes(&outcomes);
-    rep.set_bound(&format!("complete reachable state graph for 0..={max_n} rows over {} events from every consistent start; un-abstracted sequences to depth {depth}; update+draw BFS to depth {} with 0/1/3/4 aircraft", alpha.len(), if ctx.thorough() { 7 } else { 4 }));
+    rep.set_bound(&format!("complete reachable state graph for 0..={max_n} rows over {} events from every consistent start; un-abstracted sequences to depth {depth}; update+draw BFS to depth {} with 0/1/3/4/13 aircraft", alpha.len(), if ctx.thorough() { 7 } else { 4 }));
     run_render(ctx, rep);
 }
 
@@ -409,7 +409,16 @@ pub struct St2 {
 
 fn fleet(n: usize) -> std::collections::BTreeMap<String, StateVectors> {
     let now = std::time::SystemTime::now().duration_since(std::time::UNIX_EPOCH).map(|d| d.as_secs()).unwrap_or(0);
-    let specs = [("4840d6", Some("KLM1023"), Some("PH-BXA"), Some("B738")), ("a0b1c2", Some("N12345"), Some("N12345"), None), ("3c6444", None, Some("D-AIBD"), Some("A319")), ("4ca4ed", Some("RYR4AX"), None, Some("B38M"))];
+    let mut specs: Vec<(String, Option<String>, Option<String>, Option<String>)> = vec![
+        ("4840d6".into(), Some("KLM1023".into()), Some("PH-BXA".into()), Some("B738".into())),
+        ("a0b1c2".into(), Some("N12345".into()), Some("N12345".into()), None),
+        ("3c6444".into(), None, Some("D-AIBD".into()), Some("A319".into())),
+        ("4ca4ed".into(), Some("RYR4AX".into()), None, Some("B38M".into())),
+    ];
+    // more rows than the 12-line test terminal can show (the table scrolls)
+    for i in 4..n {
+        specs.push((format!("5000{i:02x}"), Some(format!("XB{i}4")), Some(format!("G-XB{i}")), Some("A20N".into())));
+    }
     let mut m = std::collections::BTreeMap::new();
     for (i, (icao, cs, reg, tc)) in specs.iter().take(n).enumerate() {
         let cur = Snapshot {
@@ -417,9 +426,9 @@ fn fleet(n: usize) -> std::collections::BTreeMap<String, StateVectors> {
             firstseen: now.saturating_sub(100),
             // in the future: the row never ages out during the run
             lastseen: now + 3600,
-            callsign: cs.map(String::from),
-            registration: reg.map(String::from),
-            typecode: tc.map(String::from),
+            callsign: cs.clone(),
+            registration: reg.clone(),
+            typecode: tc.clone(),
             squawk: None,
             latitude: Some(43.5 + i as f64),
             longitude: Some(1.5),
@@ -503,7 +512,7 @@ pub fn run_render(ctx: &Ctx, rep: &Report) {
     let depth = if ctx.thorough() { 7 } else { 4 };
     let mut total_states = 0u64;
     let mut total_trans = 0u64;
-    for total in [0usize, 1, 3, 4] {
+    for total in [0usize, 1, 3, 4, 13] {
         let s0 = St2 { total, core: St { n: 0, sel: Some(0), quit: false, search: false, sort: 3, asc: false, query: String::new(), width: 0 } };
         let mut seen: BTreeSet<St2> = BTreeSet::new();
         let mut frontier: Vec<(St2, Vec<String>)> = vec![(s0.clone(), vec![])];
